@@ -235,6 +235,7 @@ func (r *Run) Finish(rule string) {
 	var unlisted []Violation
 	var unlistedTotal int64
 	knownHit := map[string]int{}
+	knownExample := map[string]string{}
 	kinds := make([]string, 0, len(r.byKind))
 	for k := range r.byKind {
 		kinds = append(kinds, k)
@@ -247,6 +248,13 @@ func (r *Run) Finish(rule string) {
 			for _, f := range r.findings {
 				if f.Status == "open" && f.accepts(v) {
 					knownHit[f.ID]++
+					if _, ok := knownExample[f.ID]; !ok {
+						d := v.Detail
+						if len(d) > 700 {
+							d = d[:700] + "…"
+						}
+						knownExample[f.ID] = d
+					}
 					matched = true
 					break
 				}
@@ -323,6 +331,7 @@ func (r *Run) Finish(rule string) {
 	}
 	cov["violation_kinds"] = kc
 	cov["known_findings_hit"] = knownHit
+	cov["known_finding_examples"] = knownExample
 	ev := map[string]any{
 		"property_id": r.Prop, "tier": r.Tier, "seed": r.Seed, "level": "model_checking",
 		"coverage": cov, "assumptions": r.Assumptions, "wall_s": wall,
